@@ -128,6 +128,9 @@ pub struct Plan {
     pub fail_seed: u64,
     /// ... but only ops whose verb is in this list (empty = all verbs).
     pub fail_verbs: Vec<String>,
+    /// Make every op with this (verb, archive-relative path) fail with this kind: a fault chosen by
+    /// WHAT it hits, not by its position in the run (positions may depend on unordered collections).
+    pub fail_paths: Vec<(String, String, String)>,
 }
 
 struct ActorState {
@@ -388,6 +391,9 @@ impl Interceptor for ActorIcpt {
         } else if let Some(kind) = g.plan.fail.get(&k).cloned() {
             inj = "fail".into();
             decision = Decision::Fail(kind_of(&kind));
+        } else if let Some((_, _, kind)) = g.plan.fail_paths.iter().find(|(v, p, _)| *v == verb && p == op.path) {
+            inj = "fail".into();
+            decision = Decision::Fail(kind_of(kind));
         } else if g.plan.fail_p > 0.0 && (g.plan.fail_verbs.is_empty() || g.plan.fail_verbs.contains(&verb)) {
             let p = g.plan.fail_p;
             let mut r = g.rng;
